@@ -877,7 +877,7 @@ struct Gen<'a> {
 }
 
 const SIZES: &[usize] = &[0, 1, 1, 2, 3, 8, 15, 16, 17, 64, 200, 700, 1019, 1023];
-const SIZES_EDGE: &[usize] = &[1023, 1024, 1386, 1389, 1390, 1391, 1400];
+const SIZES_EDGE: &[usize] = &[1023, 1024, 1386, 1389, 1390, 1391, 1393, 1394, 1395, 1400];
 
 impl<'a> Gen<'a> {
     fn line(&mut self, l: &str) -> String {
